@@ -1,8 +1,8 @@
 (** C09 — from the byte-level round trip to "the same vertices": the float exactness step,
     the format choice of Polygon.encode, and the refuted corner.
 
-    Named hypotheses (explicit premises, Section variables; statements about float64 and
-    about the two conversions of Base/GoPrim.v only, never about the Go code):
+    The two float facts below are stated as Props and used as Section hypotheses; both are
+    proved (Proofs/C09_Float.v, Proofs/C09_F64Bits.v) and the closed theorems are at the end:
     - [H_piqi_exact]: whenever the cell-centre detection accepts a point at a level, the
       decoder's [facePiQitoXYZ] of the shifted (si,ti) is the very float vector the detection
       compared the point with ((pi+1/2)/2^level and si/2^31 are the same exact dyadic quotient);
@@ -10,7 +10,7 @@
     Since d20845c the detection compares bit patterns, so no statement about [==] is needed. *)
 From Coq Require Import ZArith List Bool Lia Floats.
 From Geo Require Import Base.GoPrim Base.Bytes Gen.Codec Model.Codec.
-From Geo Require Import Proofs.C09_Prims Proofs.C09_Lossless Proofs.C09_Compressed.
+From Geo Require Import Proofs.C09_Prims Proofs.C09_Lossless Proofs.C09_Compressed Proofs.C09_Float Proofs.C09_F64Bits.
 Import ListNotations.
 Local Open Scope Z_scope.
 
@@ -178,6 +178,33 @@ Section ExactPolygon.
     apply cloop_view_exact; auto. lia.
   Qed.
 End ExactPolygon.
+
+(** * Both hypotheses are theorems (Proofs/C09_Float.v, Proofs/C09_F64Bits.v) *)
+Theorem piqi_exact_holds : H_piqi_exact.
+Proof. exact piqi_exact. Qed.
+Theorem f64_bits_frombits_holds : H_f64_bits_frombits.
+Proof. exact f64_bits_frombits. Qed.
+
+Theorem vertex_exact_closed p level : vertex_ok p -> 0 <= level -> recon level (xyz_face_siti p) = p.
+Proof. exact (vertex_exact piqi_exact_holds f64_bits_frombits_holds p level). Qed.
+
+Theorem roundtrip_polygon_exact_closed p bs : polygon_ok p ->
+  Forall (fun l => l_vertices l <> []) (p_loops p) ->
+  encode_polygon p = Some bs ->
+  decode_polygon bs = Ok (DLossless p) \/ decode_polygon bs = Ok (DCompressed (map cloop_of_loop (p_loops p))).
+Proof. exact (roundtrip_polygon_exact piqi_exact_holds f64_bits_frombits_holds p bs). Qed.
+
+(** the compressed format alone, at any level the encoder may choose *)
+Theorem roundtrip_polygon_compressed_closed level p bs : 0 <= level <= 30 -> polygon_ok p ->
+  Forall (fun l => l_vertices l <> []) (p_loops p) ->
+  encode_polygon_compressed level p (polygon_xs p) = Some bs ->
+  decode_polygon bs = Ok (DCompressed (map cloop_of_loop (p_loops p))).
+Proof.
+  intros Hl Hp Hne He. rewrite (roundtrip_polygon_compressed level p bs Hl (polygon_okc_of_ok p Hp) He).
+  f_equal. f_equal. apply map_ext_in. intros l Hin.
+  rewrite Forall_forall in Hne. destruct Hp as (Hls & _). rewrite Forall_forall in Hls. destruct (Hls l Hin) as (Hv & _).
+  apply (cloop_view_exact piqi_exact_holds f64_bits_frombits_holds); auto. lia.
+Qed.
 
 (** * Zero coordinates of face centres (repaired by d20845c) and the remaining corner *)
 
